@@ -10,7 +10,7 @@ VARIABLE l
 ConvT(t) == [id |-> t.id, tag |-> t.tag, st |-> t.st, obs |-> [c \in Classes |-> t.obs[c + 1]]]
 Conv(e) == [tracks |-> [i \in DOMAIN e.sc.tracks |-> ConvT(e.sc.tracks[i])],
             cands |-> [i \in DOMAIN e.sc.cands |-> ConvT(e.sc.cands[i])],
-            owned |-> e.sc.owned, cls |-> e.sc.cls, baked |-> e.sc.baked, limit |-> e.sc.limit]
+            owned |-> e.sc.owned, cls |-> e.sc.cls, baked |-> e.sc.baked, limit |-> e.sc.limit, post |-> e.sc.post]
 BagOfSeq(s) == [x \in {s[i] : i \in DOMAIN s} |-> Cardinality({i \in DOMAIN s : s[i] = x})]
 BagOfSet(E, key(_)) == [x \in {key(e) : e \in E} |-> Cardinality({e \in E : key(e) = x})]
 OkKey(e) == <<e.from, e.to, e.d>>
